@@ -62,6 +62,14 @@ func configs(prop string, thorough bool) []*Config {
 			Logins: []LoginDef{{PID: 101}, {PID: 102}, {PID: 103}},
 		}
 		return []*Config{c, c3}
+	case "C10":
+		// C10(a): the production JSON writer under every history of C02's alphabet:
+		// one Write per event, whole event per Write, nothing written twice.
+		cs := configs("C02", thorough)
+		for _, c := range cs {
+			c.Name = "C10-writer" + c.Name[3:]
+		}
+		return cs
 	case "C04":
 		c := &Config{Name: "C04-mixed", CutMode: 1, ONoLeak: true, OSeq: true,
 			Sess: []SessDef{
